@@ -336,6 +336,20 @@ pub fn alloc_vocab_method(cx: &mut Ctx, m: &syn::ExprMethodCall, recv: Tr, name:
       _ => {}
     }
   }
+  // input.box_bytes_of() on a Box<T>, `T: sealed::BoxBytesOf + ?Sized`: the impl for T (sized) or for [T]
+  if name == "box_bytes_of" && args.is_empty() {
+    if let Ty::Box_(t) = &recv.ty {
+      if let Ty::Param(tn) = &**t {
+        if cx.generics.iter().any(|g| &g.name == tn && g.maybe_unsized) {
+          for c in ["box_bytes_of_sized", "box_bytes_of_slice"] { cx.callees.push(c.into()); }
+          let tn = tn.clone();
+          let (code, _) = cx.seq_pub(vec![recv], |n| (format!(
+            "(if unsized_{t} then box_bytes_of_slice ENV {t} {x} else box_bytes_of_sized ENV {t} {x})", t = tn, x = n[0]), false));
+          return Ok(Tr::eff(code, Ty::BoxBytes));
+        }
+      }
+    }
+  }
   if args.len() == 1 && recv.pure {
     match (&recv.ty, name) {
       (Ty::Usize, "checked_div") | (Ty::Usize, "checked_rem") => {
